@@ -85,7 +85,7 @@ Proof. exact custom_function_wins. Qed.
 (* non-vacuity:  F(a1, $B$2:A1, x) + 1  on a concrete host *)
 Example C10_example :
   let h := {| h_vars := [([120], VInt 5)]; h_funs := [([70], BRecord)]; h_cells := [([65;49], [VBlank; VInt 0; VBlank])];
-              h_ranges := [VBool false]; h_registry := registry_names; h_varset := []; h_funset := [] |} in
+              h_ranges := [VBool false]; h_registry := registry_names; h_varset := []; h_funset := []; h_oracle := fun _ _ => None |} in
   snd (parse_formula h [70;40;97;49;44;36;66;36;50;58;65;49;44;120;41]) =
     [EvCell [65;49] 0 0 false false; EvRange [65;49] 0 0 [36;66;36;50] 1 1; EvVariable [120];
      EvFunction [70] [VInt 0; VBool false; VInt 5]].
